@@ -11,7 +11,7 @@ CHECKS = {
     },
     'C07': {
         'technique': 'bounded-exhaustive enumeration of all input strings and token sequences (explicit-state, real parser) against a reference LL(1) recogniser',
-        'text': 'Every string up to length 5 (quick) / 6 (thorough) over a 16-character delimiter alphabet, every token sequence up to length 8/9 (11 graph tokens) and 8/10 (13 triple-notation tokens) with dead-prefix pruning, macro-token sequences, a deterministic nesting family to depth 200, a long-token family and a Unicode substitution family are run through parse, iterparse (two containers) and parse_triples; outcome class, trees/triples and the reported (line, column) are compared with an independent recogniser on every input, and a process-level watchdog turns a hang (even inside C code) into a reported violation.',
+        'text': 'Every string up to length 5 (quick) / 6 (thorough) over a 16-character delimiter alphabet, every token sequence up to length 8/9 (11 graph tokens) and 8/10 (13 triple-notation tokens) with dead-prefix pruning, macro-token sequences, a deterministic nesting family to depth 200, a long-token family and a Unicode substitution family are run through parse, iterparse (two containers) and parse_triples; outcome class, trees/triples and the reported (line, column) are compared with an independent recogniser on every input, and a process-level watchdog turns a hang (even inside C code) into a reported violation. Six templates with one hole (after a concept, role, string, symbol, triple source, triple target) are filled with every string up to length 4/5 over 14 characters of the token micro-grammars.',
         'note': 'Trusted: pmc/ref/grammar.py + pmc/ref/lexer.py as transcription of docs/notation.rst and docs/serialization.rst; small-scope hypothesis beyond the bounds; position with zero tokens and metadata segmentation for ":::"/duplicate keys are not asserted.',
         'design_ref': 'DESIGN.md section 4 C07',
     },
@@ -29,7 +29,7 @@ CHECKS = {
     },
     'C04': {
         'technique': 'bounded-exhaustive enumeration of (also ill-formed) trees x models against a reference interpretation written from the docs',
-        'text': 'Every decoration of every tree shape within the bounds, including duplicate definitions, duplicate triples, over-inverted roles, empty nodes and alignments on every position, is interpreted by the real code under DEFAULT, AMR, NOOP and MINI and compared triple-by-triple (order, top, variables, both alignment maps) with an independent reference interpretation; a text-level family with non-ASCII separators, VT, FF and FS inside tokens is decoded end to end.',
+        'text': 'Every decoration of every tree shape within the bounds, including duplicate definitions, duplicate triples, over-inverted roles, empty nodes and alignments on every position, is interpreted by the real code under DEFAULT, AMR, NOOP and MINI and compared triple-by-triple (order, top, variables, both alignment maps) with an independent reference interpretation; a text-level family with non-ASCII separators, VT, FF and FS inside tokens is decoded end to end. A model-role family is additionally decoded through eight public entry points (decode, codec, loads, iterdecode, load from stream / open file / file name), each compared with the reference reading.',
         'note': 'Trusted: pmc/ref/interp.py, pmc/ref/roles.py as transcription of docs/notation.rst and docs/structures.rst; alignment of duplicated triples not asserted; small-scope hypothesis.',
         'design_ref': 'DESIGN.md section 4 C04',
     },
@@ -65,7 +65,7 @@ CHECKS = {
     },
     'C05': {
         'technique': 'explicit-state search (BFS with state hashing) over re-layout operation histories on the real code, with owned randomness',
-        'text': 'From the decoding (and the marker-less twin) of every well-formed tree of several families, all histories up to depth 2/3 of reconfigure(key), configure+rearrange(key, attributes_first) and encode(top=v)+decode are executed on the real code for keys none/original/alphanumeric/canonical/inverted-last/scripted-random under DEFAULT, AMR and MINI; in every reached state the graph content and top are compared with the initial ones, arguments are checked to be untouched, and every rearranged branch list is compared with the stable key order demanded by the statement (numeric suffixes numerically, inverted last, attributes first, concept first). random.random is replaced by scripted answer sequences.',
+        'text': 'From the decoding (and the marker-less twin) of every well-formed tree of several families, all histories up to depth 2/3 of reconfigure(key), configure+rearrange(key, attributes_first) and encode(top=v)+decode are executed on the real code for keys none/original/alphanumeric/canonical/inverted-last/scripted-random under DEFAULT, AMR and MINI; in every reached state the graph content and top are compared with the initial ones, arguments are checked to be untouched, and every rearranged branch list is compared with the stable key order demanded by the statement (numeric suffixes numerically, inverted last, attributes first, concept first). random.random is replaced by scripted answer sequences. Initial variants include a deep copy, a marker-less twin, a hand-built graph with an implicit top and a graph stating one attribute twice.',
         'note': 'Trusted: pmc/ref/interp.py content, pmc/ref/roles.py, reference sort keys in pmc/props/c05.py; collision roles excluded; for random keys only invariants are asserted.',
         'design_ref': 'DESIGN.md section 4 C05',
     },
@@ -77,7 +77,7 @@ CHECKS = {
     },
     'C19': {
         'technique': 'bounded-exhaustive enumeration of triple lists, string contents and spacing variants on the real format_triples/parse_triples against a reference recogniser',
-        'text': 'All single triples over 3 sources x 4 roles x (symbol targets incl. "1,000", ",x", "^", "^y" and every quoted string up to length 3/4 over 15 characters), all lists of 2-3(4) triples over a reduced set, and the triples of every decoded tree of a family are written in both line styles and parsed back by the real code; every combination of the four comma spellings and six conjunction-sign spellings (and mixed styles) is parsed and compared with the reference recogniser, and with the original list whenever the pieces cannot glue into other symbols.',
+        'text': 'All single triples over 3 sources x 4 roles x (symbol targets incl. "1,000", ",x", "^", "^y" and every quoted string up to length 3/4 over 15 characters), all lists of 2-3(4) triples over a reduced set, and the triples of every decoded tree of a family are written in both line styles and parsed back by the real code; every combination of the four comma spellings and six conjunction-sign spellings (and mixed styles) is parsed and compared with the reference recogniser, and with the original list whenever the pieces cannot glue into other symbols. A role given without its colon must come back with it.',
         'note': 'Trusted: pmc/ref/grammar.py parse_triples and pmc/ref/lexer.py; comma-containing sources, None targets and the anonymous role are not expressible and excluded.',
         'design_ref': 'DESIGN.md section 4 C19',
     },
@@ -89,7 +89,7 @@ CHECKS = {
     },
     'C16': {
         'technique': 'complete enumeration of triple lists x tops x models against reference validity/reachability; complete enumeration of tool input sequences (in-process main, sub-process conformance)',
-        'text': 'Every triple list up to length 3/4 over model-specific triples (defined, singly and doubly inverted, "-of"-defined, undefined roles; concepts spelled like variables) with every top in {unset, a, b, c, z} is passed to the real Model.errors of AMR, MINI and DEFAULT and the report is compared exactly (per triple and for the graph-level key) with the reference role algebra and reference weak connectivity; every tree of a family is decoded and must receive exactly its role errors. The tool is run in-process with --amr --check on every sequence of 1-3(4) files or stdin, each holding 0-2 graphs of three kinds, with and without --quiet: exit status non-zero exactly when some graph has an error, error-N metadata exactly the offending triples, compliant graphs clean; a fixed subset is replayed in a real sub-process and must agree with the in-process harness.',
+        'text': 'Every triple list up to length 3/4 over model-specific triples (defined, singly and doubly inverted, "-of"-defined, undefined roles; concepts spelled like variables) with every top in {unset, a, b, c, z} is passed to the real Model.errors of AMR, MINI and DEFAULT and the report is compared exactly (per triple and for the graph-level key) with the reference role algebra and reference weak connectivity; every tree of a family is decoded and must receive exactly its role errors. The tool is run in-process with --amr --check on every sequence of 1-3(4) files or stdin, each holding 0-2 graphs of three kinds, with and without --quiet: exit status non-zero exactly when some graph has an error, error-N metadata exactly the offending triples, compliant graphs clean; a fixed subset is replayed in a real sub-process and must agree with the in-process harness. --check is also run together with --triples.',
         'note': 'Trusted: pmc/ref/roles.py, pmc/ref/interp.py weak connectivity, the in-process harness pmc/engine/cli.py (validated against a real sub-process on a subset).',
         'design_ref': 'DESIGN.md section 4 C16',
     },
@@ -119,7 +119,7 @@ CHECKS = {
     },
     'C20': {
         'technique': 'complete enumeration of the option space x models x streams on the real command (in-process main, sub-process conformance) against the library pipeline',
-        'text': 'All 2304 normalisation option sets (every subset of the five flags x every rearrange key incl. combined and random x every reconfigure key x variable formats) x 5 models (default, --amr, --noop, two --model files, one with its own top role) x 6 input streams (metadata, alignments, inverted and over-inverted roles, reifiable and reified relations, several graphs, irregular spacing) with the formatting option rotating (thorough: all 9), every formatting option x every flag subset, and stdin / 1-3 files are run through the real main(); stdout must be exactly the documented library pipeline composed from public calls, one graph out per graph in; option sets without --reconfigure/--indicate-branches/random keys must reproduce their own output byte for byte; without normalisation options well-formed input must decode to the same graphs. random.random is scripted identically on both sides; 36 runs are replayed in a real sub-process.',
+        'text': 'All 2688 normalisation option sets (every subset of the five flags x every rearrange key incl. combined and random x every reconfigure key x variable formats) x 5 models (default, --amr, --noop, two --model files, one with its own top role) x 6 input streams (metadata, alignments, inverted and over-inverted roles, reifiable and reified relations, several graphs, irregular spacing) with the formatting option rotating (thorough: all 10), every formatting option x every flag subset, and stdin / 1-3 files are run through the real main(); stdout must be exactly the documented library pipeline composed from public calls, one graph out per graph in; option sets without --reconfigure/--indicate-branches/random keys must reproduce their own output byte for byte; without normalisation options well-formed input must decode to the same graphs. random.random is scripted identically on both sides; 36 runs are replayed in a real sub-process.',
         'note': 'Trusted: the library itself (pinned by C01-C19) and the in-process harness (validated against sub-processes); --check is covered by C16; the number of blank lines between graphs of different files is not asserted.',
         'design_ref': 'DESIGN.md section 4 C20',
     },
